@@ -48,8 +48,23 @@ FAMILIES = [
     ("def {H}kw({a}, *, {b}):\n    return {a} - {b}\n", "lambda {b}: {H}kw({b}.i_pt, {b}={b}.i_eta) + {b}.i_pt"),
     ("def {H}df({a}, {b}=7):\n    return {a} - {b}\n", "lambda {e}: {H}df({e}.i_pt) + {H}df({e}.i_pt, {e}.i_eta)"),
     ("def {H}df({a}, {b}=7):\n    return {a} - {b}\n", "lambda {b}: {H}df({b}.i_pt) - {b}.i_eta"),
+    ("def {H}d2({a}, {b}=1, k_=2):\n    return {a} * {b} + k_\n", "lambda {e}: {H}d2({e}.i_pt, k_={e}.i_eta) - {H}d2({e}.i_pt, 3) + {H}d2({e}.i_pt) - {H}d2({e}.i_eta, {b}=4)"),
+    ("def {H}d3({a}=1, {b}=2, k_=3):\n    return {a} * 100 + {b} * 10 + k_\n", "lambda {e}: {H}d3({b}={e}.i_pt) + {H}d3(k_={e}.i_pt) - {H}d3({e}.i_eta, k_={e}.i_pt)"),
     # comprehension in the helper
     ("def {H}lc({a}):\n    return [{j}.i_pt for {j} in {a}.so_jets if {j}.b_ok]\n", "lambda {e}: len({H}lc({e}))"),
+    # comprehension whose loop variable may have the name of something in the argument, or of a parameter
+    ("def {H}nab({a}, {b}):\n    return len([{j} for {j} in {a} if {j}.i_pt > {b}])\n", "lambda {e}: {H}nab({e}.so_jets, {e}.i_pt)"),
+    ("def {H}nab({a}, {b}):\n    return len([{j}.i_pt + {b}.i_eta for {j} in {a}.so_jets])\n", "lambda {e}: {H}nab({e}.o_p, {e})"),
+    ("def {H}lcp({a}):\n    return len([{a}.i_pt for {a} in {a}.so_jets if {a}.b_ok])\n", "lambda {e}: {H}lcp({e})"),
+    ("def {H}gen({a}, {b}):\n    return len([{j}.i_pt for {j} in {a} if {j}.i_pt > {b} if {j}.i_eta < {b}])\n", "lambda {j}: {H}gen({j}.so_jets, {j}.i_eta)"),
+    # the helper's own free names: module constants, further helpers, values of the scope it was made in
+    ("{H}K = 3\n\n\ndef {H}sc({a}):\n    return {a} * {H}K\n", "lambda {e}: {H}sc({e}.i_pt)"),
+    ("{H}K = 3\n\n\ndef {H}sc({a}, {b}):\n    return {a}.so_jets.Where(lambda {j}: {j}.i_pt > {H}K + {b}).Count()\n", "lambda {e}: {H}sc({e}, {e}.i_eta)"),
+    ("{H}K = 4\n\n\ndef {H}in({a}):\n    return {a} + {H}K\n\n\ndef {H}out({b}):\n    return {H}in({b}.i_pt) * {H}K\n", "lambda {e}: {H}out({e})"),
+    ("def {H}mk(k_):\n    def {H}inner({a}):\n        return {a}.i_pt - k_\n    return {H}inner\n\n\n{H}cl = {H}mk(6)\n", "lambda {e}: {H}cl({e}) + {H}cl({e}.o_p)",
+     "lambda {e}: ({e}.i_pt - 6) + ({e}.o_p.i_pt - 6)"),
+    ("def {H}mk(k_):\n    def {H}inner({a}):\n        return {a}.so_jets.Where(lambda {j}: {j}.i_pt > k_).Count()\n    return {H}inner\n\n\n{H}cl = {H}mk(2)\n", "lambda {e}: {H}cl({e})",
+     "lambda {e}: {e}.so_jets.Where(lambda {j}: {j}.i_pt > 2).Count()"),
 ]
 
 # helpers that cannot be inlined (more than one statement): must stay calls by name
@@ -62,7 +77,9 @@ def family_cases(pool=("x", "y"), limit=None):
     "-> list of case dicts; every assignment of pool names to {a} {b} {e} {j} that yields valid Python"
     out = []
     k = 0
-    for helpers_t, lam_t in FAMILIES:
+    for fam in FAMILIES:
+        helpers_t, lam_t = fam[0], fam[1]
+        truth_t = fam[2] if len(fam) > 2 else None
         ph = [p for p in ("a", "b", "e", "j") if "{%s}" % p in helpers_t or "{%s}" % p in lam_t]
         seen = set()
         for names in itertools.product(pool, repeat=len(ph)):
@@ -82,6 +99,8 @@ def family_cases(pool=("x", "y"), limit=None):
             seen.add(key)
             names_def = [n.name for n in tree.body if isinstance(n, ast.FunctionDef)] + [n.targets[0].id for n in tree.body if isinstance(n, ast.Assign)]
             out.append(dict(helpers=hs, lam=lm, names=names_def))
+            if truth_t:
+                out[-1]["truth"] = truth_t.format(H=H, **m)
             k += 1
     for helpers_t, lam_t, opaque in NOT_INLINABLE:
         for names in itertools.product(pool, repeat=3):
